@@ -1,5 +1,5 @@
 """Per-property orchestration for /verif/check."""
-import subprocess, concurrent.futures, hashlib, json, os, re, shutil, time
+import subprocess, concurrent.futures, hashlib, json, os, re, shutil, sys, time
 
 import vf
 
@@ -156,6 +156,9 @@ def run_gen(sdir, spec, tier, seed):
 
 
 STATS = {}
+
+# monitors of bounded-time clauses (a wait that ran out): confirmed by replaying the scenario on its own before they are reported
+TIMING_MONITORS = {"C05.stream-returns", "C05.error-returns", "C05.connection-closed", "C05.no-goroutine-left"}
 
 
 def validate_trace(sdir, module, cfg, trace, props, nparts, block_ev, extra_consts=None, timeout=3000, heap="3g"):
@@ -545,14 +548,32 @@ def run(pid, tier, seed, sdir, replay, t0):
                 break
             os.makedirs(os.path.join(VERIF, "replays"), exist_ok=True)
             rp = os.path.join(VERIF, "replays", "%s-%s-s%d-p%d-%s.json" % (pid, tier, seed, key[0], key[1]))
+            mine = [x for x in viol if (x.get("part", 0), x.get("id")) == key]
             with open(rp, "w") as fh:
                 json.dump({"property": pid, "seed": seed, "tier": tier, "only": f.get("id"), "part": key[0],
                            "mode": parts[key[0]]["mode"],
-                           "failures": [x for x in viol if (x.get("part", 0), x.get("id")) == key][:20],
+                           "failures": mine[:20],
                            "scenario": shorten(byid.get(key, {}))}, fh, indent=1)
+            # A scenario whose ONLY failures are bounded-time observations ("did not return / close / leave within bounded time") is
+            # run again on its own before it is reported: on a machine that is busy with other work a wait can run out although
+            # nothing is wrong, and one such observation must not discredit the check. What reproduces (in either of two replays)
+            # is a VIOLATION; what does not is printed as UNCONFIRMED-TIMING and decides nothing.
+            if mine and all(x.get("mon") in TIMING_MONITORS for x in mine):
+                confirmed = False
+                for attempt in range(2):
+                    pr = subprocess.run([sys.executable, os.path.join(VERIF, "check"), pid, "--tier", tier, "--replay", rp],
+                                        stdout=subprocess.PIPE, stderr=subprocess.STDOUT, text=True, errors="replace",
+                                        env=dict(os.environ, VERIF_SEED=str(seed)))
+                    if pr.returncode == 1:
+                        confirmed = True
+                        break
+                if not confirmed:
+                    print("UNCONFIRMED-TIMING property=%s scenario=%s monitor=%s: observed once, not reproduced in 2 replays of the scenario on its own (replay file %s)" % (
+                        pid, key[1], mine[0].get("mon"), rp))
+                    continue
             print("VIOLATION property=%s replay=%s" % (pid, rp))
             print("  monitor=%s info=%s" % (f.get("mon"), json.dumps(f.get("info"))))
-        rc = 1
+            rc = 1
     nontriv = P.get("nontrivial", lambda b: True)
     distinct = len({canon_hash(b) for b in blocks if nontriv(b)})
     vstates = sum(r["vstates"] for r in results)
